@@ -10,6 +10,7 @@ from ..viol import Violation, require
 ID = 'C01'
 LEVEL = 'exploration'
 RULE = (
+    'Sandwich: a sweep of connectives and ITE over a manager with an unused variable, one perturbation (undeclare / declare / swap / collect / reorder / sift), the same sweep again. '
     'H: Hypothesis histories (dd.bdd and dd.autoref) in which the connectives run with a warm computed table, after full and rooted collections, after node numbers were freed and re-used and after swaps; after every collection a battery of connectives on the held functions is recomputed and compared (non-trivial: a freed node number was re-used or the order changed). '
     'E: n=3, every ordered pair of the 256 functions x every binary alias '
     'of dd._abc (19 spellings) and every ITE triple (all in thorough; a '
@@ -50,9 +51,34 @@ HIST_ALPHA_AR = {'build': 8, 'funcop': 14, 'compare_all': 8, 'churn': 8,
                  'ite': 2, 'apply': 4, 'traverse': 1, 'copy_handle': 1}
 
 
+def _sandwich_calls(b, refs, nm, den):
+    n = 3
+    N = 5
+    for op in ('and', 'xor', '=>', '<->', 'diff'):
+        fn_ = tt.BINARY[op]
+        for tu in range(0, 256, 3):
+            for tv in (tu ^ 0x5a, (tu * 7 + 3) & 255, 0x96, 0xe8):
+                def call(op=op, tu=tu, tv=tv, fn_=fn_):
+                    r = b.apply(op, refs[tu], refs[tv])
+                    want = tt.widen(fn_(tu, tv, n), n, N)
+                    require(den(r) == want,
+                            'binary.wrong_after_perturbation',
+                            dict(got=den(r), want=want))
+                yield dict(op=op, u=tu, v=tv), call
+    for tg in range(0, 256, 5):
+        for tu, tv in ((0x96, 0xe8), (tg ^ 0xff, 0x3c), (0x0f, tg)):
+            def call(tg=tg, tu=tu, tv=tv):
+                r = b.ite(refs[tg], refs[tu], refs[tv])
+                want = tt.widen(tt.ite(tg, tu, tv, n), n, N)
+                require(den(r) == want, 'ite.wrong_after_perturbation',
+                        dict(got=den(r), want=want))
+            yield dict(op='ite', g=tg, u=tu, v=tv), call
+
+
 def plan(tier, seed):
     specs = []
     specs += _hist_plan(tier, seed)
+    specs += fix.sandwich_specs(tier, seed)
     # the Function operators and comparisons of dd.autoref, with handles
     # released and node numbers re-used across collections / reorderings
     for s_ in range(6 if tier == 'thorough' else 3):
@@ -370,6 +396,10 @@ def replay_case(case):
 
 
 def replay_into(case, out):
+    if case.get('kind') == 'sandwich':
+        return fix.run_sandwich({k: case[k] for k in (
+            'kind', 'perturbation', 'pos', 'order', 'seed')}, out,
+            _sandwich_calls)
     if case.get('kind') == 'history':
         return H.replay_into(case, out)
     if case.get('step') == 'recheck':
@@ -384,6 +414,8 @@ def replay_into(case, out):
 
 
 def run(spec, out):
+    if spec['kind'] == 'sandwich':
+        return fix.run_sandwich(spec, out, _sandwich_calls)
     if spec['kind'] == 'history':
         return H.run_random(
             spec, out, HIST_ALPHA_AR if spec.get('autoref') else HIST_ALPHA,
